@@ -135,23 +135,67 @@ func c10(c *core.Ctx) string {
 
 // c10retry holds the resolved roles of the closure returned by RetryPolicy.Wrap.
 type c10retry struct {
-	f       *flow.Func     // the declared function that contains the unit (RetryPolicy.Wrap, or the method the closure became)
-	lit     *ast.FuncLit   // the unit when it is a closure (nil when it is a declared method)
-	lf      *flow.Func     // the unit: the function that runs the attempt loop
-	body    *ast.BlockStmt // the unit's body
-	ftype   *ast.FuncType  // the unit's signature
-	fs      []*flow.Func   // the unit and the same-package helpers it calls
-	cset    c10flowSet     // the variables / parameters holding the unit's ctx
-	hset    c10flowSet     // the variables / parameters / fields holding the wrapped handler
-	cons    string
-	handler types.Object // the wrapped handler (parameter of Wrap)
-	ctx     types.Object // the closure's context parameter
-	calls   []*ast.CallExpr
-	loop    *ast.ForStmt
-	steps   map[ast.Node]bool // the statements that step the attempt counter (post statement or in the body)
-	resVar  types.Object      // variable receiving the handler's error
-	resKey  string            // nil-key of resVar
-	pm      map[ast.Node]ast.Node
+	f         *flow.Func     // the declared function that contains the unit (RetryPolicy.Wrap, or the method the closure became)
+	lit       *ast.FuncLit   // the unit when it is a closure (nil when it is a declared method)
+	lf        *flow.Func     // the unit: the function that runs the attempt loop
+	body      *ast.BlockStmt // the unit's body
+	ftype     *ast.FuncType  // the unit's signature
+	fs        []*flow.Func   // the unit and the same-package helpers it calls
+	cset      c10flowSet     // the variables / parameters holding the unit's ctx
+	hset      c10flowSet     // the variables / parameters / fields holding the wrapped handler
+	cons      string
+	handler   types.Object // the wrapped handler (parameter of Wrap)
+	ctx       types.Object // the closure's context parameter
+	calls     []*ast.CallExpr
+	loop      *ast.ForStmt
+	rloop     *ast.RangeStmt // the attempt loop when it ranges over a per-policy schedule
+	sched     *c10sched      // ... and where that schedule is built
+	pmHelpers map[ast.Node]ast.Node
+	peeled    int64 // attempts made in front of the loop
+	inLoop    map[*ast.CallExpr]bool
+	steps     map[ast.Node]bool // the statements that step the attempt counter (post statement or in the body)
+	resVar    types.Object      // variable receiving the handler's error
+	resKey    string            // nil-key of resVar
+	pm        map[ast.Node]ast.Node
+}
+
+// note describes the peeled attempts for obligation details.
+func (r *c10retry) note() string {
+	if r.peeled > 0 {
+		return sprintf(" after %d attempt(s) made in front of the loop", r.peeled)
+	}
+	return ""
+}
+
+// pmUnit returns the parent of n in the unit or one of its helpers.
+func (r *c10retry) pmUnit(n ast.Node) ast.Node {
+	if p, ok := r.pm[n]; ok {
+		return p
+	}
+	if r.pmHelpers == nil {
+		r.pmHelpers = map[ast.Node]ast.Node{}
+		for _, g := range r.fs {
+			for k, v := range parentMap(g.Body) {
+				r.pmHelpers[k] = v
+			}
+		}
+	}
+	return r.pmHelpers[n]
+}
+
+// loopStmt / loopBody return the attempt loop (counting or ranging over a schedule).
+func (r *c10retry) loopStmt() ast.Stmt {
+	if r.loop != nil {
+		return r.loop
+	}
+	return r.rloop
+}
+
+func (r *c10retry) loopBody() *ast.BlockStmt {
+	if r.loop != nil {
+		return r.loop.Body
+	}
+	return r.rloop.Body
 }
 
 func c10Retry(c *core.Ctx) {
@@ -253,29 +297,60 @@ func c10Retry(c *core.Ctx) {
 		sprintf("%d handler call site(s), all in the function that runs the attempt loop; the handler value is not used otherwise", len(r.calls)),
 		"the wrapped handler is called or passed on outside the counted attempt loop: such attempts are not bounded by MaxAttempts", pos(c, escapeAt))
 
-	// the loop
-	var loops []ast.Stmt
-	sameLoop := true
-	for i, call := range r.calls {
+	// the loop: every attempt is made inside one loop, except attempts peeled off in front of it
+	// (`err := handler(ctx); if err == nil {return nil}; for attempt := 1; ...`)
+	var loopStmt ast.Stmt
+	r.inLoop = map[*ast.CallExpr]bool{}
+	var pre []*ast.CallExpr
+	oneLoop := true
+	for _, call := range r.calls {
 		ls := enclosingLoops(r.body, call)
-		if i == 0 {
-			loops = ls
-		} else if len(ls) != len(loops) || (len(ls) > 0 && ls[len(ls)-1] != loops[len(loops)-1]) {
-			sameLoop = false
+		switch {
+		case len(ls) == 0:
+			pre = append(pre, call)
+		case len(ls) == 1 && (loopStmt == nil || loopStmt == ls[0]):
+			loopStmt = ls[0]
+			r.inLoop[call] = true
+		default:
+			oneLoop = false
 		}
 	}
-	if len(loops) == 0 {
+	if loopStmt == nil {
 		c.Violate("R-C10-1", r.cons+"|attempt loop bound", pos(c, r.calls[0]),
 			"the handler is not called from a loop: a failing call is never retried although a Retry policy is configured (or attempts are bounded by something other than MaxAttempts)")
 		return
 	}
-	fl, isFor := loops[len(loops)-1].(*ast.ForStmt)
-	if len(loops) != 1 || !isFor || !sameLoop {
-		c10shape(c, "R-C10-1", r.cons+"|attempt loop bound", pos(c, r.calls[0]), "handler calls are not in exactly one (non-nested) for loop")
+	if !oneLoop {
+		c10shape(c, "R-C10-1", r.cons+"|attempt loop bound", pos(c, r.calls[0]), "handler calls are not in exactly one (non-nested) loop")
 		return
 	}
-	r.loop = fl
-	c10LoopBound(c, r)
+	for _, call := range pre {
+		// a peeled attempt is an unconditional statement of the unit's body in front of the loop
+		top := false
+		for _, st := range r.body.List {
+			if contains(st, call) && st.End() <= loopStmt.Pos() {
+				switch x := st.(type) {
+				case *ast.AssignStmt:
+					top = len(x.Rhs) == 1 && ast.Unparen(x.Rhs[0]) == ast.Expr(call)
+				case *ast.ExprStmt:
+					top = ast.Unparen(x.X) == ast.Expr(call)
+				}
+			}
+		}
+		if !top {
+			c10shape(c, "R-C10-1", r.cons+"|attempt loop bound", pos(c, call), "a handler call outside the attempt loop is not an unconditional statement in front of the loop")
+			return
+		}
+		r.peeled++
+	}
+	switch l := loopStmt.(type) {
+	case *ast.ForStmt:
+		r.loop = l
+		c10LoopBound(c, r).emit(c, "R-C10-1", r.cons+"|attempt loop bound")
+	case *ast.RangeStmt:
+		r.rloop = l
+		c10Schedule(c, r)
+	}
 
 	// the variable holding the attempt's outcome
 	for _, call := range r.calls {
@@ -322,19 +397,49 @@ func c10Retry(c *core.Ctx) {
 	c10RetryFlow(c, r, foreign)
 }
 
-// c10LoopBound decides the header of the attempt loop (AST + types).
-func c10LoopBound(c *core.Ctx, r *c10retry) {
+// c10verdict is the outcome of one sub-check that is reported under a shared construct.
+type c10verdict struct {
+	kind   string // "ok", "violate", "shape", "" (nothing decided)
+	at     ast.Node
+	detail string
+}
+
+func (v *c10verdict) violate(at ast.Node, msg string) { *v = c10verdict{"violate", at, msg} }
+func (v *c10verdict) shape(at ast.Node, msg string)   { *v = c10verdict{"shape", at, msg} }
+func (v *c10verdict) check(ok bool, at ast.Node, okMsg, badMsg string) {
+	if ok {
+		*v = c10verdict{"ok", at, okMsg}
+	} else {
+		*v = c10verdict{"violate", at, badMsg}
+	}
+}
+
+// emit reports the verdict as one obligation.
+func (v c10verdict) emit(c *core.Ctx, rule, cons string) {
+	switch v.kind {
+	case "ok":
+		c.Discharge(rule, cons, pos(c, v.at), v.detail)
+	case "violate":
+		c.Violate(rule, cons, pos(c, v.at), v.detail)
+	case "shape":
+		c10shape(c, rule, cons, pos(c, v.at), v.detail)
+	}
+}
+
+// c10LoopBound decides the header of a counting loop (AST + types): r.loop must run exactly
+// MaxAttempts - r.peeled times (r.peeled = attempts made in front of the loop). It sets r.steps.
+func c10LoopBound(c *core.Ctx, r *c10retry) (em c10verdict) {
 	f, loop := r.f, r.loop
-	cons := r.cons + "|attempt loop bound"
 	maxF := structField(c, c10rs, "RetryPolicy", "MaxAttempts")
 	if maxF == nil {
 		return
 	}
+	peeled := r.peeled
 	if loop.Cond == nil {
 		if c10mentions(f, loop.Body, maxF) {
-			c10shape(c, "R-C10-1", cons, pos(c, loop), "unconditional for loop; the MaxAttempts test is inside the body")
+			em.shape(loop, "unconditional for loop; the MaxAttempts test is inside the body")
 		} else {
-			c.Violate("R-C10-1", cons, pos(c, loop), "the attempt loop has no condition and never consults MaxAttempts: a persistently failing backend is retried for ever")
+			em.violate(loop, "the attempt loop has no condition and never consults MaxAttempts: a persistently failing backend is retried for ever")
 		}
 		return
 	}
@@ -465,11 +570,11 @@ func c10LoopBound(c *core.Ctx, r *c10retry) {
 			dir = d
 		}
 		if extra != nil {
-			c.Violate("R-C10-1", cons, pos(c, extra), sprintf("the attempt counter %q is written inside the retry closure other than by its initialisation and a uniform unit step per iteration: the number of attempts is no longer MaxAttempts", s.ctr.Name))
+			em.violate(extra, sprintf("the attempt counter %q is written inside the retry closure other than by its initialisation and a uniform unit step per iteration: the number of attempts is no longer MaxAttempts", s.ctr.Name))
 			return
 		}
 		if init != nil && len(steps) == 0 {
-			c.Violate("R-C10-1", cons, pos(c, loop.Cond), sprintf("the attempt counter %q is compared with MaxAttempts but never stepped in the loop: a persistently failing call is retried for ever", s.ctr.Name))
+			em.violate(loop.Cond, sprintf("the attempt counter %q is compared with MaxAttempts but never stepped in the loop: a persistently failing call is retried for ever", s.ctr.Name))
 			return
 		}
 		if init == nil {
@@ -497,15 +602,15 @@ func c10LoopBound(c *core.Ctx, r *c10retry) {
 			var extraAttempts int64 // iterations - MaxAttempts
 			switch s.op {
 			case token.LSS, token.NEQ:
-				extraAttempts = -k
+				extraAttempts = peeled - k
 			case token.LEQ:
-				extraAttempts = 1 - k
+				extraAttempts = peeled + 1 - k
 			default:
-				c.Violate("R-C10-1", cons, pos(c, loop.Cond), sprintf("the loop condition %s with an upward counter does not bound the attempts by MaxAttempts", f.Render(loop.Cond)))
+				em.violate(loop.Cond, sprintf("the loop condition %s with an upward counter does not bound the attempts by MaxAttempts", f.Render(loop.Cond)))
 				return
 			}
-			c.Check(extraAttempts == 0, "R-C10-1", cons, pos(c, loop.Cond),
-				sprintf("counter %q starts at %d, is stepped by one only in the loop and the loop runs while it is %s MaxAttempts: exactly MaxAttempts iterations", s.ctr.Name, k, s.op),
+			em.check(extraAttempts == 0, loop.Cond,
+				sprintf("counter %q starts at %d, is stepped by one only in the loop and the loop runs while it is %s MaxAttempts: exactly MaxAttempts iterations%s", s.ctr.Name, k, s.op, r.note()),
 				sprintf("counter %q starts at %d and the loop runs while it is %s MaxAttempts: a persistently failing call is attempted MaxAttempts%+d times", s.ctr.Name, k, s.op, extraAttempts))
 			return
 		}
@@ -518,26 +623,27 @@ func c10LoopBound(c *core.Ctx, r *c10retry) {
 		var extraAttempts int64
 		switch s.op {
 		case token.GTR, token.NEQ:
-			extraAttempts = -k
+			extraAttempts = peeled - k
 		case token.GEQ:
-			extraAttempts = 1 - k
+			extraAttempts = peeled + 1 - k
 		default:
-			c.Violate("R-C10-1", cons, pos(c, loop.Cond), sprintf("the loop condition %s with a downward counter does not bound the attempts by MaxAttempts", f.Render(loop.Cond)))
+			em.violate(loop.Cond, sprintf("the loop condition %s with a downward counter does not bound the attempts by MaxAttempts", f.Render(loop.Cond)))
 			return
 		}
-		c.Check(extraAttempts == 0, "R-C10-1", cons, pos(c, loop.Cond),
-			sprintf("counter %q starts at MaxAttempts, is decremented by one only in the loop and the loop runs while it is %s %d: exactly MaxAttempts iterations", s.ctr.Name, s.op, k),
+		em.check(extraAttempts == 0, loop.Cond,
+			sprintf("counter %q starts at MaxAttempts, is decremented by one only in the loop and the loop runs while it is %s %d: exactly MaxAttempts iterations%s", s.ctr.Name, s.op, k, r.note()),
 			sprintf("counter %q counts down from MaxAttempts while %s %d: a persistently failing call is attempted MaxAttempts%+d times", s.ctr.Name, s.op, k, extraAttempts))
 		return
 	}
 	switch {
 	case undecided != "":
-		c10shape(c, "R-C10-1", cons, pos(c, loop.Cond), undecided)
+		em.shape(loop.Cond, undecided)
 	case mentions:
-		c.Violate("R-C10-1", cons, pos(c, loop.Cond), sprintf("the loop condition %s mentions MaxAttempts but does not compare a counter with exactly MaxAttempts: the number of attempts differs from the configured maximum", types.ExprString(loop.Cond)))
+		em.violate(loop.Cond, sprintf("the loop condition %s mentions MaxAttempts but does not compare a counter with exactly MaxAttempts: the number of attempts differs from the configured maximum", types.ExprString(loop.Cond)))
 	default:
-		c.Violate("R-C10-1", cons, pos(c, loop.Cond), sprintf("the attempt loop's condition %s does not involve MaxAttempts: the configured maximum does not bound the attempts", types.ExprString(loop.Cond)))
+		em.violate(loop.Cond, sprintf("the attempt loop's condition %s does not involve MaxAttempts: the configured maximum does not bound the attempts", types.ExprString(loop.Cond)))
 	}
+	return
 }
 
 // c10comm is the classification of one select clause of the retry closure.
@@ -700,6 +806,7 @@ func c10RetryFlow(c *core.Ctx, r *c10retry, foreign ast.Node) {
 	// of same-package functions through the callee's return expressions and from there to the
 	// arguments of exactly those parameters the result depends on (`wait := p.randomize(base)`)
 	var visit func(e ast.Node, root ast.Node, depth int)
+	var visitField func(sel *ast.SelectorExpr, depth int)
 	visit = func(e ast.Node, root ast.Node, depth int) {
 		if e == nil {
 			return
@@ -759,6 +866,8 @@ func c10RetryFlow(c *core.Ctx, r *c10retry, foreign ast.Node) {
 			case *ast.SelectorExpr:
 				if c10fieldSel(f, x, wdF) {
 					reachesWD = true
+				} else {
+					visitField(x, depth)
 				}
 			case *ast.Ident:
 				v, ok := c10obj(f, x).(*types.Var)
@@ -776,10 +885,57 @@ func c10RetryFlow(c *core.Ctx, r *c10retry, foreign ast.Node) {
 					if w.src != nil {
 						visit(w.src, root, depth)
 					}
+					if rs, ok := w.at.(*ast.RangeStmt); ok && w.tok == token.RANGE {
+						visit(rs.X, root, depth) // the element of what is ranged over
+					}
 				}
 			}
 			return true
 		})
+	}
+	// a slice-typed field (a per-policy schedule): its elements are the values stored into it
+	// anywhere in the package
+	seenField := map[types.Object]bool{}
+	visitField = func(sel *ast.SelectorExpr, depth int) {
+		s := f.Info.Selections[sel]
+		if s == nil || depth >= 3 {
+			return
+		}
+		fld, ok := s.Obj().(*types.Var)
+		if !ok || !fld.IsField() || seenField[fld] {
+			return
+		}
+		if _, isSlice := fld.Type().Underlying().(*types.Slice); !isSlice {
+			return
+		}
+		seenField[fld] = true
+		for _, g := range funcsByRole(c, c10rs, func(*flow.Func, *ast.FuncDecl) bool { return true }) {
+			ast.Inspect(g.Body, func(n ast.Node) bool {
+				as, ok := n.(*ast.AssignStmt)
+				if !ok || len(as.Lhs) != len(as.Rhs) {
+					return true
+				}
+				for i, l := range as.Lhs {
+					target := ast.Unparen(l)
+					if ix, ok := target.(*ast.IndexExpr); ok {
+						target = ast.Unparen(ix.X)
+					}
+					if !c10fieldSel(f, target, fld) {
+						continue
+					}
+					if call, ok := ast.Unparen(as.Rhs[i]).(*ast.CallExpr); ok {
+						if b, ok := f.Callee(call).(*types.Builtin); ok && b.Name() == "append" && len(call.Args) >= 1 {
+							for _, a := range call.Args[1:] {
+								visit(a, g.Body, depth+1)
+							}
+							continue
+						}
+					}
+					visit(as.Rhs[i], g.Body, depth+1)
+				}
+				return true
+			})
+		}
 	}
 	for _, d := range durs {
 		visit(d, f.Body, 0)
@@ -790,11 +946,21 @@ func c10RetryFlow(c *core.Ctx, r *c10retry, foreign ast.Node) {
 	growthBad := ""
 	var growthBadAt ast.Node
 	growthShape := ""
+	// the loop in which successive waits are produced: the attempt loop, or - when the attempt loop
+	// ranges over a precomputed schedule - the loop that builds the schedule
+	var waitLoop ast.Stmt = r.loopStmt()
+	var waitBody *ast.BlockStmt = r.loopBody()
+	if r.sched != nil && r.sched.loop != nil {
+		waitLoop, waitBody = r.sched.loop, r.sched.loop.Body
+	}
 	for v := range slice {
-		if v.Pos() >= r.loop.Pos() && v.Pos() < r.loop.End() {
+		if v.Pos() >= waitLoop.Pos() && v.Pos() < waitLoop.End() {
 			continue // per-iteration variable
 		}
-		for _, w := range c10writes(f, r.loop.Body, v) {
+		if _, isSlice := v.Type().Underlying().(*types.Slice); isSlice {
+			continue // the schedule itself (appended to), not a wait
+		}
+		for _, w := range c10writes(f, waitBody, v) {
 			as, ok := w.at.(*ast.AssignStmt)
 			if !ok || len(as.Lhs) != 1 || len(as.Rhs) != 1 {
 				growthShape = "write to the loop-carried wait variable " + v.Name() + " is not a simple assignment"
@@ -836,39 +1002,59 @@ func c10RetryFlow(c *core.Ctx, r *c10retry, foreign ast.Node) {
 		key string
 		neg bool // key true means NOT exponential
 	}
-	var expAtoms []expAtom
-	ast.Inspect(f.Body, func(n ast.Node) bool {
-		be, ok := n.(*ast.BinaryExpr)
-		if !ok || (be.Op != token.EQL && be.Op != token.NEQ) {
-			return true
-		}
-		var other ast.Expr
-		switch {
-		case c10fieldSel(f, c10alias(f, f.Body, be.X), bopF):
-			other = be.Y
-		case c10fieldSel(f, c10alias(f, f.Body, be.Y), bopF):
-			other = be.X
-		default:
-			return true
-		}
-		if s, ok := c10constString(f, other); !ok || s != expName {
-			return true
-		}
-		// the key is the positive fact "BackOffPolicy == exponential" whatever the operator;
-		// neg only matters for a boolean local defined as the (in)equality
-		k, neg := lf.Atom(be)
-		expAtoms = append(expAtoms, expAtom{k, false})
-		// a boolean local defined as this comparison
-		if as, ok := r.pm[be].(*ast.AssignStmt); ok && len(as.Lhs) == 1 && len(as.Rhs) == 1 && ast.Unparen(as.Rhs[0]) == ast.Expr(be) {
-			if id := c10ident(as.Lhs[0]); id != nil {
-				if ws := c10writes(f, f.Body, c10obj(f, id)); len(ws) == 1 {
-					expAtoms = append(expAtoms, expAtom{lf.VarKey(id), neg})
+	expAtomsOf := func(body *ast.BlockStmt, pm map[ast.Node]ast.Node) []expAtom {
+		var expAtoms []expAtom
+		ast.Inspect(body, func(n ast.Node) bool {
+			be, ok := n.(*ast.BinaryExpr)
+			if !ok || (be.Op != token.EQL && be.Op != token.NEQ) {
+				return true
+			}
+			var other ast.Expr
+			switch {
+			case c10fieldSel(f, c10alias(f, body, be.X), bopF):
+				other = be.Y
+			case c10fieldSel(f, c10alias(f, body, be.Y), bopF):
+				other = be.X
+			default:
+				return true
+			}
+			if s, ok := c10constString(f, other); !ok || s != expName {
+				return true
+			}
+			// the key is the positive fact "BackOffPolicy == exponential" whatever the operator;
+			// neg only matters for a boolean local defined as the (in)equality
+			k, neg := lf.Atom(be)
+			expAtoms = append(expAtoms, expAtom{k, false})
+			// a boolean local defined as this comparison
+			if as, ok := pm[be].(*ast.AssignStmt); ok && len(as.Lhs) == 1 && len(as.Rhs) == 1 && ast.Unparen(as.Rhs[0]) == ast.Expr(be) {
+				if id := c10ident(as.Lhs[0]); id != nil {
+					if ws := c10writes(f, body, c10obj(f, id)); len(ws) == 1 {
+						expAtoms = append(expAtoms, expAtom{lf.VarKey(id), neg})
+					}
 				}
 			}
+			return true
+		})
+		return expAtoms
+	}
+	expAtoms := expAtomsOf(f.Body, r.pm)
+	expValOf := func(atoms []expAtom) func(st *flow.State) flow.Val {
+		return func(st *flow.State) flow.Val {
+			for _, a := range atoms {
+				v := st.Get(a.key)
+				if v == flow.Unknown {
+					continue
+				}
+				if (v == flow.True) != a.neg {
+					return flow.True
+				}
+				return flow.False
+			}
+			return flow.Unknown
 		}
-		return true
-	})
-	expVal := func(st *flow.State) flow.Val {
+	}
+	expVal := expValOf(expAtoms)
+	_ = func(st *flow.State) flow.Val {
 		for _, a := range expAtoms {
 			v := st.Get(a.key)
 			if v == flow.Unknown {
@@ -888,20 +1074,37 @@ func c10RetryFlow(c *core.Ctx, r *c10retry, foreign ast.Node) {
 		isAttempt[call] = true
 	}
 	const (
-		evAttempted = "ev:attempted"
-		evStepped   = "ev:stepped"
-		evOverstep  = "ev:overstepped"
-		evWaited    = "ev:waited"
-		evInterr    = "ev:interruptible"
-		evCancel    = "ev:cancelled"
-		evGrown     = "ev:grown"
+		evAttempted  = "ev:attempted"
+		evStepped    = "ev:stepped"
+		evOverstep   = "ev:overstepped"
+		evWaited     = "ev:waited"
+		evInterr     = "ev:interruptible"
+		evCancel     = "ev:cancelled"
+		evGrown      = "ev:grown"
+		evPrevInLoop = "ev:prevInLoop"
 	)
+	// names (renderings) that hold ctx.Err() obtained after the Done case: testing them for nil has
+	// only one feasible outcome
+	doneErrNames := func(st *flow.State) []string {
+		var out []string
+		for _, kv := range st.Facts() {
+			if strings.HasPrefix(kv, "ev:doneErr:") && strings.HasSuffix(kv, "=T") {
+				out = append(out, strings.TrimSuffix(strings.TrimPrefix(kv, "ev:doneErr:"), "=T"))
+			}
+		}
+		return out
+	}
 	res := analyze(c, lf, flow.Config{
 		NoHavoc: true,
 		Inline:  inlineSamePkg(lf),
 		OnCall: func(st *flow.State, call *ast.CallExpr, callee types.Object, deferred bool) {
+			// ctx.Err() after the Done case was taken is non-nil: remember which expression holds it
+			if calleeFull(f, call) == "(context.Context).Err" && r.cset.holds(f, c10recv(call)) && st.Is(evCancel, flow.True) {
+				st.Set("ev:doneErr:"+f.Render(call), flow.True)
+			}
 			if isAttempt[call] {
 				st.Set(evAttempted, flow.True)
+				st.Set(evPrevInLoop, map[bool]flow.Val{true: flow.True, false: flow.False}[r.inLoop[call]])
 				st.Set(evStepped, flow.False)
 				st.Set(evOverstep, flow.False)
 				st.Set(evWaited, flow.False)
@@ -921,7 +1124,36 @@ func c10RetryFlow(c *core.Ctx, r *c10retry, foreign ast.Node) {
 				st.Set(evGrown, flow.True)
 			}
 		},
+		OnInline: func(st *flow.State, ev *flow.InlineEvent) {
+			// `return ctx.Err()` of a helper, assigned by the caller (e := sleep(ctx, d)): the name moves along
+			if ev.Enter || len(ev.Results) == 0 {
+				return
+			}
+			as, ok := r.pmUnit(ev.Call).(*ast.AssignStmt)
+			if !ok || len(as.Rhs) != 1 || len(as.Lhs) != len(ev.Results) {
+				return
+			}
+			for i, res := range ev.Results {
+				if id := c10ident(as.Lhs[i]); id != nil && id.Name != "_" {
+					st.Set("ev:doneErr:"+f.Render(id), st.Get("ev:doneErr:"+f.Render(res)))
+				}
+			}
+		},
+		AfterAssume: func(st *flow.State, cond ast.Expr, outcome bool) {
+			for _, name := range doneErrNames(st) {
+				if st.Is("nil:"+name, flow.True) {
+					st.Infeasible() // ctx.Err() cannot be nil once ctx.Done() was received from
+				}
+			}
+		},
 		OnBlock: func(st *flow.State, b *cfg.Block) {
+			if r.rloop != nil && b.Kind == cfg.KindRangeBody && b.Stmt == ast.Stmt(r.rloop) {
+				// a schedule-driven loop: entering the body consumes one entry
+				if st.Is(evStepped, flow.True) {
+					st.Set(evOverstep, flow.True)
+				}
+				st.Set(evStepped, flow.True)
+			}
 			if b.Kind != cfg.KindSelectCaseBody {
 				return
 			}
@@ -968,10 +1200,10 @@ func c10RetryFlow(c *core.Ctx, r *c10retry, foreign ast.Node) {
 				continue
 			}
 			again++
-			if !st.Is(evStepped, flow.True) && badStep == nil {
+			if !st.Is(evStepped, flow.True) && st.Is(evPrevInLoop, flow.True) && badStep == nil {
 				badStep = &finding{st, call, "a further attempt is reachable without the attempt counter having been stepped since the previous one: more than MaxAttempts attempts are possible"}
 			}
-			if st.Is(evOverstep, flow.True) && badStep == nil {
+			if st.Is(evOverstep, flow.True) && st.Is(evPrevInLoop, flow.True) && badStep == nil {
 				badStep = &finding{st, call, "the attempt counter is stepped more than once between two attempts on this path: fewer than MaxAttempts attempts are made (none at all for small values)"}
 			}
 			if !st.Is(r.resKey, flow.False) && badFail == nil {
@@ -985,6 +1217,9 @@ func c10RetryFlow(c *core.Ctx, r *c10retry, foreign ast.Node) {
 			}
 			if st.Is(evWaited, flow.True) && !st.Is(evInterr, flow.True) && badInterr == nil {
 				badInterr = &finding{st, call, "the back-off wait before a further attempt is not a select that also offers <-ctx.Done() on the closure's context: a client cancelling during the wait is followed by another attempt"}
+			}
+			if r.sched != nil {
+				continue // growth is decided where the schedule is built
 			}
 			ev := expVal(st)
 			if st.Is(evGrown, flow.True) && ev != flow.True && badGrow == nil {
@@ -1021,6 +1256,14 @@ func c10RetryFlow(c *core.Ctx, r *c10retry, foreign ast.Node) {
 		c10shape(c, "R-C10-2", r.cons+"|exponential growth", pos(c, growthBadAt), growthShape)
 	case growthBad != "":
 		c.Violate("R-C10-2", r.cons+"|exponential growth", pos(c, growthBadAt), growthBad)
+	case r.sched != nil:
+		// schedule-driven loop: growth between successive entries, decided in the builder
+		gs := r.sched.g
+		st, at, why := c10SchedGrowth(c, r, growth, expValOf(expAtomsOf(gs.Body, parentMap(gs.Body))))
+		if st != nil {
+			badGrow = &finding{st, at, why}
+		}
+		chk("R-C10-2", "exponential growth", badGrow, sprintf("%d growth statement(s) in %s; successive schedule entries grow iff BackOffPolicy == %q", len(growth), c10funcCons(gs), expName))
 	default:
 		// growth statements themselves only under the exponential test
 		for n := range growth {
@@ -1032,7 +1275,7 @@ func c10RetryFlow(c *core.Ctx, r *c10retry, foreign ast.Node) {
 		}
 		if badGrow != nil && len(growth) == 0 {
 			for v := range slice {
-				if r.loop.Init != nil && v.Pos() >= r.loop.Init.Pos() && v.Pos() < r.loop.Init.End() {
+				if r.loop != nil && r.loop.Init != nil && v.Pos() >= r.loop.Init.Pos() && v.Pos() < r.loop.Init.End() {
 					c10shape(c, "R-C10-2", r.cons+"|exponential growth", pos(c, durs[0]), "the wait is computed from the loop counter "+v.Name()+" instead of a loop-carried variable")
 					badGrow = nil
 					growthShape = "counter"
@@ -1047,7 +1290,7 @@ func c10RetryFlow(c *core.Ctx, r *c10retry, foreign ast.Node) {
 	// the wait derives from the configured duration
 	switch {
 	case len(durs) == 0:
-		c.Violate("R-C10-2", r.cons+"|wait derives from waitDuration", pos(c, r.loop), "the retry closure has no select case on time.After / time.NewTimer(...).C: there is no back-off wait")
+		c.Violate("R-C10-2", r.cons+"|wait derives from waitDuration", pos(c, r.loopStmt()), "the retry closure has no select case on time.After / time.NewTimer(...).C: there is no back-off wait")
 	default:
 		c.Check(reachesWD, "R-C10-2", r.cons+"|wait derives from waitDuration", pos(c, durs[0]),
 			sprintf("the timer duration depends (through %d local variables) on RetryPolicy.waitDuration", len(slice)),
